@@ -4,10 +4,12 @@ from .. import common, gen, modelio, pipefam, pool, cli
 
 RULE = ("malformed stream: one defect inserted into an otherwise valid generated pair -- duplicate gene identifier (same / other "
         "chromosome, at first / last / random row positions), strand symbol outside + - . (at first / last / random rows), each required "
-        "column dropped in turn, chromosome sets differing with equal and unequal cardinality; every variant through the real library "
+        "column dropped in turn, chromosome sets differing with equal and unequal cardinality; every fifth variant with a defect of the gene annotation, and every missing-gene-column variant a second time, in an output directory where the valid pair "
+        "was processed before, with older modification times; every variant through the real library "
         "stages (must raise, no <genome>_<chrom>.h5 left) and a sample through the CLI (exit status non-zero, no result file); "
         "non-trivial = defect not in the first row; distinct = canonical JSON of the variant")
-BAD_STRANDS = ["*", "x", "++", "0", "plus", "?"]
+BAD_STRANDS = ["*", "x", "++", "0", "plus", "?", "+-", "-.", "+-.", "-+", ".+", "+ ", " -", "\uff0b", "\u2013", ".."]
+_bad_i = [0]
 G_REQUIRED = ["Gene_Name", "Chromosome", "Start", "Stop", "Strand", "Length"]
 T_REQUIRED = ["Chromosome", "Start", "Stop", "Order", "SuperFamily"]
 GCOL = {"Gene_Name": "GName", "Chromosome": "GChrom", "Start": "GStart", "Stop": "GStop", "Strand": "GStrand", "Length": "GLength", "Feature": "GFeature"}
@@ -37,7 +39,7 @@ def variants(r, base, all_positions):
             out.append(c)
     for i in positions(r, ng, all_positions):
         c = copy.deepcopy(base)
-        c["genes"][i]["strand"] = r.choice(BAD_STRANDS)
+        c["genes"][i]["strand"] = BAD_STRANDS[_bad_i[0] % len(BAD_STRANDS)]; _bad_i[0] += 1     # every symbol in turn
         c["defect"] = "strand %r at gene row %d" % (c["genes"][i]["strand"], i); c["pos"] = i
         out.append(c)
     for col in G_REQUIRED:
@@ -70,7 +72,27 @@ def run(chk):
     vs = []
     for _ in range(nb):
         base = gen.gen_pair(r, max_chrom=3, max_genes=4, max_tes=10, min_chrom=1)
-        vs += variants(r, base, chk.tier != "quick")
+        new = variants(r, base, chk.tier != "quick")
+        for c in new:
+            c["_base"] = base
+        vs += new
+    # every fifth variant arrives in an output directory in which the valid pair has already been processed, its files carrying
+    # modification times older than the intermediates of that run: it must be rejected all the same
+    extra = []
+    for i, c in enumerate(vs):
+        dropped = c.get("drop_gene_cols")
+        # only defects of the GENE annotation: without --revise_anno an existing revised TE annotation is reused and an edited TE
+        # file is not read at all (the caching that C13 describes), so a defect put into it is invisible by design
+        gene_side = c["tes"] == c["_base"]["tes"] and not c.get("drop_te_cols")
+        if (i % 5 == 4 or dropped) and gene_side:
+            base_of = {k: c["_base"][k] for k in ("genes", "tes", "windows")}
+            cc = copy.deepcopy(c) if dropped else c         # a missing column: both in a fresh and in a used directory
+            cc["before"] = {"case": base_of, "genome": "G", "backdate_inputs": True, "same_names": True}
+            if dropped:
+                extra.append(cc)
+    vs += extra
+    for c in vs:
+        c.pop("_base", None)
     reps = pipefam.run_impl(vs)
     try:
         flats = common.coq_eval("c18", "From TEV Require Import Model.Pipeline Proofs.C18P.", "", [model_expr(c) for c in vs], chunk=40)
@@ -82,6 +104,7 @@ def run(chk):
     for i, (c, rep) in enumerate(zip(vs, reps)):
         chk.case_seen({k: c.get(k) for k in ("genes", "tes", "drop_gene_cols", "drop_te_cols")}, c["pos"] > 0)
         chk.count("defect:" + c["defect"].split(" ")[0] + " " + c["defect"].split(" ")[1])
+        chk.count("output_directory:" + ("used_before_older_inputs" if c.get("before") else "fresh"))
         bad = None
         if rep.get("ok"):
             bad = {"kind": "accepted", "result_files": [f["file"] for f in rep["files"]]}
@@ -93,7 +116,7 @@ def run(chk):
             nv += 1
             if nv <= 2:
                 chk.violation("malformed annotation pair not rejected before a result was written: " + c["defect"],
-                              {"case": {k: c[k] for k in ("genes", "tes", "windows")}, "drop_gene_cols": c.get("drop_gene_cols", []),
+                              {"case": {k: c[k] for k in ("genes", "tes", "windows", "before") if k in c}, "drop_gene_cols": c.get("drop_gene_cols", []),
                                "drop_te_cols": c.get("drop_te_cols", []), "defect": c["defect"], "failure": bad})
         if flats is not None:
             chk.cov["traces_validated_against_impl"] += 1
